@@ -170,22 +170,28 @@ _HEADERS_TO_CHECK = {
 }
 
 
+def _lower(s: str) -> str:
+    # Header tokens are ASCII and compared case-insensitively as such; str.lower()
+    # would also fold non-ASCII characters onto ASCII letters (U+212A KELVIN SIGN -> "k").
+    return "".join(chr(ord(c) + 32) if "A" <= c <= "Z" else c for c in s)
+
+
 def _validate(headers, key: str, subprotocols) -> tuple:
     subproto = None
     for k, v in _HEADERS_TO_CHECK.items():
         r = headers.get(k, None)
         if not r:
             return False, None
-        r = [x.strip().lower() for x in r.split(",")]
+        r = [_lower(x.strip()) for x in r.split(",")]
         if v not in r:
             return False, None
 
     if subprotocols:
         subproto = headers.get("sec-websocket-protocol", None)
-        if not subproto or subproto.lower() not in [s.lower() for s in subprotocols]:
+        if not subproto or _lower(subproto) not in [_lower(s) for s in subprotocols]:
             error(f"Invalid subprotocol: {subprotocols}")
             return False, None
-        subproto = subproto.lower()
+        subproto = _lower(subproto)
 
     result = headers.get("sec-websocket-accept", None)
     if not result:
